@@ -132,6 +132,8 @@ def judge(ctx, ss, ts, tb, fb):
             it = iter(instrument.original(M.match_geometries)(src, tgt, time_buffer=tb, freq_buffer=fb))
             next(it, None)
             del it
+        if ctx.every(spec, 4):
+            list(M.match_geometries(tuple(src), tuple(tgt), time_buffer=tb, freq_buffer=fb))     # sequences, not only lists
         first = list(M.match_geometries(src, tgt, time_buffer=tb, freq_buffer=fb))
         # the property holds for every call, also the second one on the very same objects
         second = list(M.match_geometries(src, tgt, time_buffer=tb, freq_buffer=fb))
